@@ -220,14 +220,21 @@ def zigzag_alternation(zz):
                    and c not in srcs]
     if not [y for y in walk_own(zz.node) if isinstance(y, (ast.Yield, ast.YieldFrom))]:
         return False, "unrecognised: ZigZagGroupIter._iter is not a generator function (the groups are produced elsewhere)", zz.node
-    if len(srcs) != 1 or other_iters:
-        return False, "groups do not come from exactly one LevelOrderGroupIter", zz.node
-    src = srcs[0]
-    chp = zz.posparams[0]
-    start = src.args[0] if src.args else next((k.value for k in src.keywords if k.arg == "node"), None)
-    start = resolve_local(zz, start) if start is not None else None
-    if start is None or norm(start) != "%s[0]" % chp:
-        return False, "the group iterator does not start at the start node (%s[0])" % chp, src
+    direct = [c for c in walk_own(zz.node) if isinstance(c, ast.Call) and norm(c.func) == "LevelOrderGroupIter._iter"]
+    if len(direct) == 1 and not srcs and not other_iters:
+        # the level-order group strategy itself, run on ZigZag's own start sequence and options
+        src = direct[0]
+        if src.keywords or [norm(a) for a in src.args] != list(zz.posparams[:4]):
+            return False, "the level-order group strategy is not run on ZigZag's own (children, filter_, stop, maxlevel): `%s`" % norm(src), src
+    else:
+        if len(srcs) != 1 or other_iters:
+            return False, "groups do not come from exactly one LevelOrderGroupIter", zz.node
+        src = srcs[0]
+        chp = zz.posparams[0]
+        start = src.args[0] if src.args else next((k.value for k in src.keywords if k.arg == "node"), None)
+        start = resolve_local(zz, start) if start is not None else None
+        if start is None or norm(start) != "%s[0]" % chp:
+            return False, "the group iterator does not start at the start node (%s[0])" % chp, src
     itnames = {t.id for n in walk_own(zz.node) if isinstance(n, ast.Assign) and n.value is src for t in n.targets if isinstance(t, ast.Name)}
     loops = [n for n in walk_own(zz.node) if isinstance(n, (ast.While, ast.For))]
     if len(loops) != 1:
